@@ -50,7 +50,23 @@ def gen_langs(rng, for_merge):
                 caps.append((s + 1 if isinstance(s, int) else s + 0.5, e, rng.randint(1, 3)))
             t = t + d + rng.choice([0, 0, 1, 1000, 5 * 10**6])
         langs.append(caps[:max(n, 0)] if n else [])
+    # API-built sets may list the SAME Caption objects under two languages: an aliased language is the same
+    # Python list object as an earlier one (build() then reuses the Caption objects)
+    if len(langs) < 3 and rng.random() < 0.2:
+        langs.append(langs[rng.randrange(len(langs))])
     return langs
+
+
+def alias_of(langs):
+    """alias_of(langs)[i] = index of the first language that is the same list object (i itself if none)"""
+    return [next(j for j in range(i + 1) if langs[j] is langs[i]) for i in range(len(langs))]
+
+
+def with_alias(langs, alias):
+    out = []
+    for i, l in enumerate(langs):
+        out.append(out[alias[i]] if alias and alias[i] < i else l)
+    return out
 
 
 def build(langs):
@@ -58,7 +74,13 @@ def build(langs):
     snaps = []
     d = {}
     k = 0
+    al = alias_of(langs)
+    built = []
     for li, caps in enumerate(langs):
+        if al[li] < li:
+            built.append(built[al[li]])
+            d[LANGS[li]] = CaptionList(list(built[al[li]]))
+            continue
         cl = []
         for (s, e, nn) in caps:
             nodes = []
@@ -72,6 +94,7 @@ def build(langs):
                 nodes.append(node)
                 k += 1
             cl.append(Caption(s, e, nodes))
+        built.append(cl)
         d[LANGS[li]] = CaptionList(cl)
     return CaptionSet(d), ids, snaps
 
@@ -101,7 +124,11 @@ def wire_langs(langs):
     """abstract input -> wire value with identities assigned exactly as build() does"""
     out = []
     k = 0
-    for caps in langs:
+    al = alias_of(langs)
+    for li, caps in enumerate(langs):
+        if al[li] < li:
+            out.append(out[al[li]])
+            continue
         l = []
         for (s, e, nn) in caps:
             l.append([exact(s), exact(e), list(range(k, k + nn))])
@@ -175,7 +202,7 @@ def run(ctx):
         key = ("adjust", repr(langs), skew, off)
         if isinstance(o, Err):
             res["violations"].append({"kind": "adjust-raises", "what": f"adjust_caption_timing raised {o}",
-                                      "op": "adjust", "input": langs, "skew": skew, "offset": off})
+                                      "alias": alias_of(langs), "op": "adjust", "input": langs, "skew": skew, "offset": off})
             continue
         if ok[1] == 1:
             near += 1
@@ -184,9 +211,13 @@ def run(ctx):
         n_out = sum(len(l) for l in o.v)
         if skew != 1.0 or 0 < n_out < n_in:
             res["nontrivial"].add(key)
+        shared = alias_of(langs) != list(range(len(langs)))
+        dist["adjust_sets_with_shared_caption_objects"] = dist.get("adjust_sets_with_shared_caption_objects", 0) + shared
         if ok[0] != 1 or not untouched:
             res["violations"].append({
-                "kind": "adjust-wrong" if ok[0] != 1 else "adjust-modifies-nodes",
+                "alias": alias_of(langs), "shape": "languages-share-caption-objects" if shared else "distinct-objects",
+                "kind": ("adjust-wrong:languages-share-caption-objects" if shared else "adjust-wrong")
+                if ok[0] != 1 else "adjust-modifies-nodes",
                 "what": f"adjust_caption_timing(offset={off}, rate_skew={skew}) result differs from t*skew+offset / "
                         f"drop-negative-starts" if ok[0] != 1 else "adjust modified a node",
                 "op": "adjust", "input": langs, "skew": skew, "offset": off, "impl_obs": o.v})
@@ -217,8 +248,11 @@ def run(ctx):
         runlens[maxrun] = runlens.get(maxrun, 0) + 1
         if maxrun >= 2:
             res["nontrivial"].add(("merge", repr(langs)))
+        shared = alias_of(langs) != list(range(len(langs)))
+        dist["merge_sets_with_shared_caption_objects"] = dist.get("merge_sets_with_shared_caption_objects", 0) + shared
         if ok != 1 or not untouched:
             res["violations"].append({
+                "alias": alias_of(langs), "shape": "languages-share-caption-objects" if shared else "distinct-objects",
                 "kind": "merge-wrong" if ok != 1 else "merge-modifies-nodes",
                 "what": "merge_concurrent_captions result is not 'join every maximal run' / not idempotent / raised",
                 "op": "merge", "input": langs,
@@ -243,7 +277,7 @@ def run(ctx):
 
 def replay(ctx, rec):
     from wire import oracle1
-    langs = [[tuple(c) for c in l] for l in rec["input"]]
+    langs = with_alias([[tuple(c) for c in l] for l in rec["input"]], rec.get("alias"))
     if rec.get("op") == "adjust":
         o, untouched = do_adjust(langs, rec["skew"], rec["offset"])
         if isinstance(o, Err):
